@@ -389,9 +389,8 @@ def ref_key(ts):
 
 
 class Ref:
-    def __init__(self, quirks=()):
+    def __init__(self):
         self.pool = [RC() for _ in range(NVARS)]
-        self.quirks = set(quirks)     # "group_tag": group tags are not validated (known finding)
 
     # --- building containers from argument literals --------------------------------------
     def item(self, it):
@@ -428,7 +427,7 @@ class Ref:
         c.d[k] = text                                   # existing key keeps its place, new key at the end
 
     def group_tag_check(self, k):
-        if not is_int_key(k) and "group_tag" not in self.quirks:
+        if not is_int_key(k):
             raise RefExc(["FIXMessageError"], "non-integer group tag")
 
     def set_group(self, c, ts, its):
@@ -638,23 +637,6 @@ def clean_ref(c, top=True):
     return True
 
 
-def has_group_key_defect(op):
-    """Class predicate of C18-group-tag-not-validated: the call names a non-integer tag as a group tag."""
-    def in_dict(ds):
-        return any((vs[0] == "L" and (not is_int_key(ref_key(ts)) or any(in_item(it) for it in vs[1]))) for ts, vs in ds)
-
-    def in_item(it):
-        return it[0] == "D" and in_dict(it[1])
-    k = op[0]
-    if k == "new":
-        return in_dict(op[3])
-    if k == "addg":
-        return not is_int_key(ref_key(op[2])) or in_item(op[3])
-    if k == "setg":
-        return not is_int_key(ref_key(op[2])) or any(in_item(it) for it in op[3])
-    return False
-
-
 def matches(names, cls):
     E = lib()["exc"]
     return any(issubclass(cls, E[n]) for n in names)
@@ -716,34 +698,12 @@ class Oracle:
         want = ("%r" % (exp[1],)) if exp[0] == "ok" else ("%s (%s)" % ("/".join(exp[1]), exp[2])) if exp[0] == "exc" \
             else "%r or %s" % (exp[1], "/".join(exp[2]))
         what = "%s %s, the property requires %s" % (k, seen, want)
-        # ---- known-finding class predicates (narrow) ----
+        # ---- known-finding class predicate (narrow): equality by rendered text, D18 ----
         cls = None
         r = self.ref
         if k == "eq" and raw == ("ok", True) and exp == ("ok", False) and not (
                 clean_ref(r.pool[op[1]]) and clean_ref(r.pool[op[2]])):
             cls = "D18-eq-by-rendered-text"
-        elif k == "eqd" and raw[0] in ("ok", "exc") and any(ref_key(ts) in FRAMING for ts, _ in op[2]) and (
-                (raw[0] == "exc" and raw[1].__name__ in ("TagNotFoundError", "FIXMessageError")) or raw == ("ok", False)):
-            cls = "D18-eq-dict-framing-tag"
-        elif k == "addg" and raw[0] == "exc" and raw[1] is AttributeError and isinstance(
-                r.pool[op[1]].d.get(ref_key(op[2])), str):
-            cls = "D18-add-group-on-plain-tag"
-        elif k == "gidx" and raw[0] == "exc" and raw[1] is IndexError and isinstance(
-                r.pool[op[1]].d.get(ref_key(op[2])), list) and op[3] < -len(r.pool[op[1]].d[ref_key(op[2])]):
-            cls = "D18-group-index-below-minus-len"
-        elif k in ("new", "addg", "setg") and raw[0] == "ok" and exp[0] == "exc" and has_group_key_defect(op):
-            # would the call be right if group tags needed no validation?  then follow the implementation
-            lenient = Ref(quirks=["group_tag"])
-            lenient.pool = before
-            try:
-                lenient.apply(op)
-                cls = "C18-group-tag-not-validated"
-                self.ref.pool = lenient.pool
-            except Unjudged:
-                self.judging = False            # the rest of the literal is outside the property's domain
-                return None
-            except (RefExc, RefEither):
-                cls = None
         if cls is None:
             self.judging = False
         return (what, cls)
@@ -1035,7 +995,7 @@ def replay_sequence(ops):
     return r
 
 
-# the witnesses of the refuted theorems, run first on every run
+# the witness of the refuted theorem and the former D18 witnesses (repaired by fixes/C18-*.patch), run first on every run
 WITNESSES = [
     [["new", 0, None, [[["i", 1], ["s", "a|2=b"]]]], ["new", 1, None, [[["i", 1], ["s", "a"]], [["i", 2], ["s", "b"]]]], ["eq", 0, 1]],
     [["new", 0, ["s", "D"], [[["i", 1], ["s", "a"]]]], ["eqd", 0, [[["i", 35], ["s", "D"]], [["i", 1], ["s", "a"]]]]],
